@@ -84,6 +84,11 @@ def run(ctx):
         distinct.add((o["site"], o["shape"], n))
         fam = o["site"].split("-")[0] if o["site"].startswith("ledger") else o["site"]
         problem = None
+        if o["site"].startswith("ledger-solo") and n > 16 and o["least"] < 0:
+            # a non-vbft header naming more than 16 bookkeepers is refused outright (no multi-signature address exists for
+            # it, repair ef67c94): no quorum is ever formed, so there is no threshold to compare - not a violation
+            ctx.note("solo ledger, n=%d: refused at every signature count (more than 16 bookkeepers)" % n)
+            continue
         if o["site"] == "commit-disjoint":
             if o["below"] or not o["at"]:
                 problem = "disjoint-group-reached-consensus"
